@@ -420,6 +420,44 @@ def run_long(case):
   return R(None, True, (n > 64, n > 128))
 
 
+
+# ---------------------------------------------------- plain Python ints as samples (PCM-like data)
+INT_ALPHA = [-32768, -127, -7, -1, 0, 3, 7, 127, 32767]
+
+
+def gen_int_blocks(run):
+  import itertools as _it
+  for n in range(1, run.pick(3, 4) + 1):
+    for blk in _it.product(INT_ALPHA, repeat=n):
+      yield list(blk)
+  for blk in ([7] * 3, [3] * 15, [32767, -32767] * 50, [127, 127, -127] * 5, [6, 7, -7], [1] * 64, [-32768] * 33,
+              [2 ** 31 - 1] * 8, [2 ** 62, -2 ** 62, 2 ** 62]):
+    yield list(blk)
+
+
+def run_int_blocks(case):
+  """Blocks of plain ints, small and full scale: acorr / lag_matrix are the plain (exact, unbounded) integer
+  sums, and lpc.kautocor solves the system of those lags."""
+  blk = list(case)
+  N = len(blk)
+  for ml in (None, 0, 1, N - 1, N + 1):
+    try:
+      got = acorr(list(blk)) if ml is None else acorr(list(blk), ml)
+    except Exception as exc:
+      return bad("acorr:int:exception", "acorr of an int block raised", None, repr(exc)[:200], True)
+    m = N - 1 if ml is None else ml
+    exp = [sum(blk[i] * blk[i + t] for i in range(max(N - t, 0))) for t in range(m + 1)]
+    if len(got) != len(exp) or any(F(g) != e for g, e in zip(got, exp)):
+      return bad("acorr:int", "acorr of a block of plain ints is not the plain lag sum", [str(e) for e in exp], [str(g) for g in got], True)
+  if N >= 2:
+    ml = min(2, N - 1)
+    lm = lag_matrix(list(blk), ml)
+    exp = [[sum(blk[i - a] * blk[i - b] for i in range(ml, N)) for a in range(ml + 1)] for b in range(ml + 1)]
+    if [[F(x_) for x_ in row] for row in lm] != exp:
+      return bad("lag_matrix:int", "lag_matrix of a block of plain ints is not the plain covariance table",
+                 [[str(x_) for x_ in row] for row in exp], [[str(x_) for x_ in row] for row in lm], True)
+  return R(None, N >= 2, (N, max(abs(v) for v in blk) > 1000))
+
 def gen_types(run):
   from ..routes import struct_params
   try:
@@ -446,6 +484,8 @@ KINDS = OrderedDict([
                   rule="data blocks x orders for lpc.kcovar; non-trivial: it returned a filter")),
   ("call-routes", Kind(gen_routes, run_routes, chunk=1,
                        rule="each function with every documented parameter set: all positional / all keyword / every split must agree")),
+  ("int-blocks", Kind(gen_int_blocks, run_int_blocks, chunk=200,
+                      rule="all blocks of 1..3 (4) plain ints over {0, +-1, 3, +-7, +-127, full scale} + constant / alternating full-scale blocks: acorr, lag_matrix")),
   ("long", Kind(gen_long, run_long, chunk=1, timeout=600, rule="pseudo-random exact blocks of 33..200 (512) samples x small orders")),
   ("param-types", Kind(gen_types, run_types, chunk=1,
                        rule="structural integer parameters given as integral float / Fraction / bool: same result wherever the type is accepted")),
